@@ -819,7 +819,7 @@ impl RdfPlanner {
                     .map(|(i, name)| (name.clone(), i))
                     .collect();
 
-                let operator = Box::new(RdfInsertPatternOperator::new(
+                let mut operator = Box::new(RdfInsertPatternOperator::new(
                     Arc::clone(&self.store),
                     input_op,
                     insert.subject.clone(),
@@ -827,6 +827,7 @@ impl RdfPlanner {
                     insert.object.clone(),
                     column_map,
                 ));
+                operator.tx_id = self.tx_id;
 
                 return Ok((operator, Vec::new()));
             }
@@ -898,7 +899,7 @@ impl RdfPlanner {
                     .map(|(i, name)| (name.clone(), i))
                     .collect();
 
-                let operator = Box::new(RdfDeletePatternOperator::new(
+                let mut operator = Box::new(RdfDeletePatternOperator::new(
                     Arc::clone(&self.store),
                     input_op,
                     delete.subject.clone(),
@@ -906,6 +907,7 @@ impl RdfPlanner {
                     delete.object.clone(),
                     column_map,
                 ));
+                operator.tx_id = self.tx_id;
 
                 return Ok((operator, Vec::new()));
             }
@@ -928,11 +930,12 @@ impl RdfPlanner {
 
     /// Plans a CLEAR GRAPH operator.
     fn plan_clear_graph(&self, clear: &ClearGraphOp) -> Result<(Box<dyn Operator>, Vec<String>)> {
-        let operator = Box::new(RdfClearGraphOperator::new(
+        let mut operator = Box::new(RdfClearGraphOperator::new(
             Arc::clone(&self.store),
             clear.graph.clone(),
             clear.silent,
         ));
+        operator.tx_id = self.tx_id;
         Ok((operator, Vec::new()))
     }
 
@@ -952,11 +955,12 @@ impl RdfPlanner {
         // For default graph (None), clear all triples
         // For named graph, we would need named graph support
         if drop_op.graph.is_none() {
-            let operator = Box::new(RdfClearGraphOperator::new(
+            let mut operator = Box::new(RdfClearGraphOperator::new(
                 Arc::clone(&self.store),
                 None,
                 drop_op.silent,
             ));
+            operator.tx_id = self.tx_id;
             Ok((operator, Vec::new()))
         } else {
             // Named graphs not yet fully supported
@@ -982,15 +986,36 @@ impl RdfPlanner {
             .map(|(i, name)| (name.clone(), i))
             .collect();
 
-        let operator = Box::new(RdfModifyOperator::new(
+        let mut operator = Box::new(RdfModifyOperator::new(
             Arc::clone(&self.store),
             where_op,
             modify.delete_templates.clone(),
             modify.insert_templates.clone(),
             column_map,
         ));
+        operator.tx_id = self.tx_id;
 
         Ok((operator, Vec::new()))
+    }
+}
+
+/// Inserts a triple: buffered with the transaction when there is one, directly otherwise.
+fn insert_triple(store: &RdfStore, tx_id: Option<TxId>, triple: Triple) {
+    match tx_id {
+        Some(tx_id) => store.insert_in_tx(tx_id, triple),
+        None => {
+            store.insert(triple);
+        }
+    }
+}
+
+/// Removes a triple: buffered with the transaction when there is one, directly otherwise.
+fn remove_triple(store: &RdfStore, tx_id: Option<TxId>, triple: Triple) {
+    match tx_id {
+        Some(tx_id) => store.remove_in_tx(tx_id, triple),
+        None => {
+            store.remove(&triple);
+        }
     }
 }
 
@@ -1057,6 +1082,7 @@ struct RdfInsertPatternOperator {
     predicate: TripleComponent,
     object: TripleComponent,
     column_map: HashMap<String, usize>,
+    tx_id: Option<TxId>,
     done: bool,
 }
 
@@ -1076,6 +1102,7 @@ impl RdfInsertPatternOperator {
             predicate,
             object,
             column_map,
+            tx_id: None,
             done: false,
         }
     }
@@ -1172,7 +1199,7 @@ impl Operator for RdfInsertPatternOperator {
 
         // Insert all collected triples
         for triple in triples_to_insert {
-            self.store.insert(triple);
+            insert_triple(&self.store, self.tx_id, triple);
         }
 
         self.done = true;
@@ -1252,6 +1279,7 @@ struct RdfDeletePatternOperator {
     predicate: TripleComponent,
     object: TripleComponent,
     column_map: HashMap<String, usize>,
+    tx_id: Option<TxId>,
     done: bool,
 }
 
@@ -1271,6 +1299,7 @@ impl RdfDeletePatternOperator {
             predicate,
             object,
             column_map,
+            tx_id: None,
             done: false,
         }
     }
@@ -1367,7 +1396,7 @@ impl Operator for RdfDeletePatternOperator {
 
         // Delete all collected triples
         for triple in triples_to_delete {
-            self.store.remove(&triple);
+            remove_triple(&self.store, self.tx_id, triple);
         }
 
         self.done = true;
@@ -1395,6 +1424,7 @@ struct RdfClearGraphOperator {
     graph: Option<String>,
     #[allow(dead_code)]
     silent: bool,
+    tx_id: Option<TxId>,
     cleared: bool,
 }
 
@@ -1404,6 +1434,7 @@ impl RdfClearGraphOperator {
             store,
             graph,
             silent,
+            tx_id: None,
             cleared: false,
         }
     }
@@ -1415,8 +1446,16 @@ impl Operator for RdfClearGraphOperator {
             return Ok(None);
         }
 
-        // For now, clear all triples (named graph support would filter by graph)
-        self.store.clear();
+        // For now, clear all triples (named graph support would filter by graph).
+        // Inside a transaction the removal of everything the transaction reads is buffered.
+        match self.tx_id {
+            Some(tx_id) => {
+                for triple in self.store.find_with_pending(&TriplePattern::any(), Some(tx_id)) {
+                    self.store.remove_in_tx(tx_id, triple.as_ref().clone());
+                }
+            }
+            None => self.store.clear(),
+        }
         self.cleared = true;
 
         Ok(None)
@@ -1485,6 +1524,7 @@ struct RdfModifyOperator {
     delete_templates: Vec<TripleTemplate>,
     insert_templates: Vec<TripleTemplate>,
     column_map: HashMap<String, usize>,
+    tx_id: Option<TxId>,
     done: bool,
 }
 
@@ -1502,6 +1542,7 @@ impl RdfModifyOperator {
             delete_templates,
             insert_templates,
             column_map,
+            tx_id: None,
             done: false,
         }
     }
@@ -1593,8 +1634,7 @@ impl Operator for RdfModifyOperator {
                 let object = self.resolve_component(&template.object, chunk, *row);
 
                 if let (Some(s), Some(p), Some(o)) = (subject, predicate, object) {
-                    let triple = Triple::new(s, p, o);
-                    self.store.remove(&triple);
+                    remove_triple(&self.store, self.tx_id, Triple::new(s, p, o));
                 }
             }
         }
@@ -1607,8 +1647,7 @@ impl Operator for RdfModifyOperator {
                 let object = self.resolve_component(&template.object, chunk, *row);
 
                 if let (Some(s), Some(p), Some(o)) = (subject, predicate, object) {
-                    let triple = Triple::new(s, p, o);
-                    self.store.insert(triple);
+                    insert_triple(&self.store, self.tx_id, Triple::new(s, p, o));
                 }
             }
         }
